@@ -195,12 +195,12 @@ def gen_cases(tier, seed):
         chunk = 40
         for i in range(0, len(names), chunk):
             cases.append({"id": "from_string:%s:%d" % (m, i // chunk), "sig": ["from_string", m, i // chunk], "kind": "from_string",
-                          "module": m, "names": names[i:i + chunk], "trunc": 4 if tier == "quick" else 25})
+                          "module": m, "names": names[i:i + chunk], "trunc": 4 if tier == "quick" else 60})
     cases.append({"id": "generic-and-soap", "sig": ["generic-and-soap"], "kind": "soap",
-                  "eps": [[g, m, n] for g, m, n in eps if g in ("soap", "generic")], "trunc": 12 if tier == "quick" else 60})
+                  "eps": [[g, m, n] for g, m, n in eps if g in ("soap", "generic")], "trunc": 12 if tier == "quick" else 100000})
     for b in ("post", "redirect", "soap"):
-        cases.append({"id": "protocol-%s" % b, "sig": ["protocol", b], "kind": "protocol", "binding": b, "trunc": 10 if tier == "quick" else 60})
-    cases.append({"id": "metadata", "sig": ["metadata"], "kind": "metadata", "trunc": 10 if tier == "quick" else 60})
+        cases.append({"id": "protocol-%s" % b, "sig": ["protocol", b], "kind": "protocol", "binding": b, "trunc": 10 if tier == "quick" else 100000})
+    cases.append({"id": "metadata", "sig": ["metadata"], "kind": "metadata", "trunc": 10 if tier == "quick" else 100000})
     cases.append({"id": "signed-with-doctype", "sig": ["signed-with-doctype"], "kind": "signed"})
     if not os.environ.get("VERIF_C11_TRACED"):
         # the same signed and protocol cases once more in a child process under strace: the operating system's view of the whole process
